@@ -128,6 +128,25 @@ fn run_case(seed: u64, index: u64, md: &mut Model, rep: &mut Report) {
             if let Ok(u) = yrs::Update::decode_v1(ev) {
                 let again: Vec<String> = u.insertions(true).iter().flat_map(|(c, rs)| { let c = c.get(); rs.iter().flat_map(move |r| (r.start..r.end).map(move |k| (c, k))).collect::<Vec<_>>() }).filter(|x| units_before.contains(x)).take(6).map(|(c, k)| format!("{:x}:{:x}", c, k)).collect();
                 rep.count("events_checked_for_blocks_written_again");
+                // the transcription of TransactionMut::encode_update (Crdt/WriteBlocks.v) on the leader's store, the ids the
+                // transaction integrated and the ids it deleted writes the same event
+                {
+                    let units_after = unit_ids(&leader.doc);
+                    let ranges = |set: Vec<(u64, u32)>| -> String { let mut by: std::collections::BTreeMap<u64, Vec<(u32, u32)>> = std::collections::BTreeMap::new(); for (c, k) in set { let v = by.entry(c).or_default(); match v.last_mut() { Some(l) if l.1 == k => l.1 = k + 1, _ => v.push((k, k + 1)) } }
+                        if by.is_empty() { "_".into() } else { by.iter().map(|(c, rs)| format!("{:x}={}", c, rs.iter().map(|(a, b)| format!("{:x}-{:x}", a, b)).collect::<Vec<_>>().join(","))).collect::<Vec<_>>().join(";") } };
+                    let ins = ranges(units_after.iter().filter(|x| !units_before.contains(x)).cloned().collect());
+                    let parse = |s: &BTreeSet<String>| -> BTreeSet<(u64, u32)> { s.iter().filter_map(|x| { let mut p = x.split(':'); Some((u64::from_str_radix(p.next()?, 16).ok()?, u32::from_str_radix(p.next()?, 16).ok()?)) }).collect() };
+                    let (db, da) = (parse(&del_before), parse(&del_after));
+                    let ds = ranges(da.iter().filter(|x| !db.contains(x)).cloned().collect());
+                    let whole = leader.doc.transact().encode_diff_v1(&yrs::StateVector::default());
+                    let m = md.ask(&format!("WBF txn {} {} {}", crate::model::hex(&whole), ins, ds));
+                    rep.count("events_compared_with_the_transcription_of_encode_update");
+                    let mut it = m.split(' ');
+                    match (it.next(), it.next()) {
+                        (Some("ok"), Some(hx)) if *hx == crate::model::hex(ev) || md.ask(&format!("DEC update {}", hx)) == md.ask(&format!("DEC update {}", crate::model::hex(ev))) => {}
+                        _ => disagreements.push(json!({"kind": "encode_update transcription", "step": step, "what": what, "model": m.chars().take(400).collect::<String>(), "impl": crate::model::hex(ev), "ins": ins, "ds": ds})),
+                    }
+                }
                 if !again.is_empty() { failures.push(json!({"class": "event-writes-blocks-again-that-were-integrated-before", "step": step, "what": what, "ids": again, "event": crate::model::hex(ev)})); }
             }
         }
